@@ -18,4 +18,7 @@ def run(P, R, L):
     K.ts1(P, R, L)
     R.clause("ERR-1", "parse errors of Batch, VersionChangeManifest and FileMetadata (and every other Result) are not swallowed")
     c08.err1(P, R, L)
+    R.clause("ERR-2", "a read error stored by the merging iterator over the compaction inputs (a damaged input table) is consulted on every "
+             "path to install_compaction_results — otherwise the damaged input is deleted as 'compacted'")
+    K.err2_iterator_status(P, R, L)
     R.not_decided += ["detection probability", "behaviour for a concrete flipped byte"]
